@@ -515,6 +515,9 @@ func (e *IsolatedExplorer) Explore() *Stats {
 					v := &Violation{Harness: h.Name, Key: key, What: what, Vector: vec, Observed: obs, Seq: seq, Confirmed: true}
 					// let the harness describe the case
 					if h.Gen != nil {
+						// generators are written for one goroutine per process (workers); several shards
+						// may report crashes at the same moment, so the parent runs them one at a time
+						describeMu.Lock()
 						c := &Ctx{Tier: e.Tier, Seed: e.Seed, prefix: vec, st: newLocalStats(), h: h}
 						cs := h.Gen(c)
 						v.Labels = c.labels()
@@ -524,6 +527,7 @@ func (e *IsolatedExplorer) Explore() *Stats {
 								v.Key = k
 							}
 						}
+						describeMu.Unlock()
 					}
 					addViol(v)
 				} else {
@@ -555,6 +559,9 @@ func (e *IsolatedExplorer) Explore() *Stats {
 	sort.Slice(st.Violations, func(i, j int) bool { return st.Violations[i].Key < st.Violations[j].Key })
 	return st
 }
+
+// describeMu serializes parent-side calls of a harness's generator (see Explore).
+var describeMu sync.Mutex
 
 // Keyed lets a generated case provide the stable key used for violations raised
 // by the parent (crash / hang), so that they match known-findings entries.
